@@ -99,6 +99,11 @@ func report(tag string, r interface{}) {
 const preludeTail = `
 func namedPrint(tag string, v int) { fmt.Println("defer", tag, "named", v) }
 
+func first(res, aux int) int {
+	fmt.Println("aux", aux)
+	return res
+}
+
 func namedRecover(tag string) {
 	fmt.Println("defer", tag, "namedrec")
 	r := recover()
@@ -153,6 +158,17 @@ func (e *emitter) line(ind int, format string, a ...any) {
 	e.b.WriteString(strings.Repeat("\t", ind))
 	fmt.Fprintf(&e.b, format, a...)
 	e.b.WriteByte('\n')
+}
+
+// call renders a call of function id: a function with the result group
+// (res, aux int) is called through first, which prints aux and yields res.
+func (e *emitter) call(id int, arg string) string {
+	for _, f := range e.p.Fns {
+		if f.ID == id && f.Group {
+			return "first(" + fname(id) + "(" + arg + "))"
+		}
+	}
+	return fname(id) + "(" + arg + ")"
 }
 
 func fname(id int) string {
@@ -255,7 +271,7 @@ func (e *emitter) body(ind int, fn *Fn, b *Body, tag string, code int) {
 		e.line(ind, "}")
 	}
 	if b.Callee >= 0 {
-		e.line(ind, "fmt.Println(\"%s got\", %s(%d))", tag, fname(b.Callee), b.CalleeArg)
+		e.line(ind, "fmt.Println(\"%s got\", %s)", tag, e.call(b.Callee, fmt.Sprint(b.CalleeArg)))
 	}
 	switch b.Act {
 	case actRaise:
@@ -464,6 +480,8 @@ func (e *emitter) fn(fn *Fn) {
 		e.line(1, "}")
 		e.line(1, "ran = true")
 		e.line(1, "d := 0")
+	case fn.Group:
+		e.line(0, "func %s(d int) (res, aux int) {", name)
 	case fn.Named:
 		e.line(0, "func %s(d int) (res int) {", name)
 	default:
@@ -472,6 +490,9 @@ func (e *emitter) fn(fn *Fn) {
 	e.line(1, "fmt.Println(\"enter %s\", d)", name)
 	if fn.Named {
 		e.line(1, "res = d * 10")
+	}
+	if fn.Group {
+		e.line(1, "aux = d + 7")
 	}
 	for _, st := range fn.Stmts {
 		tag := fmt.Sprintf("%s.%d", name, st.N)
@@ -507,9 +528,9 @@ func (e *emitter) fn(fn *Fn) {
 				ind, a = 2, "i"
 			}
 			if st.AddRes {
-				e.line(ind, "res += %s(%s)", fname(st.Callee), a)
+				e.line(ind, "res += %s", e.call(st.Callee, a))
 			} else {
-				e.line(ind, "fmt.Println(\"%s got\", %s(%s))", tag, fname(st.Callee), a)
+				e.line(ind, "fmt.Println(\"%s got\", %s)", tag, e.call(st.Callee, a))
 			}
 			if st.CallN > 0 {
 				e.line(1, "}")
@@ -526,6 +547,9 @@ func (e *emitter) fn(fn *Fn) {
 	switch {
 	case fn.ID == 0:
 		e.line(1, "fmt.Println(\"exit main\", sink, cnt)")
+	case fn.Group:
+		e.line(1, "fmt.Println(\"exit %s\", d, res, aux)", name)
+		e.line(1, "return res + 1, aux * 2")
 	case fn.Named:
 		e.line(1, "fmt.Println(\"exit %s\", d, res)", name)
 		e.line(1, "return res + 1")
